@@ -36,7 +36,8 @@ COMPONENTS = {
     'stub': ['HTTP transport (pytezos.rpc.node.requests.request)', 'clock (pytezos.rpc.node.sleep)'],
 }
 ASSUMPTIONS = [
-    'Response shapes on which the statement is silent are not generated: mixed temporary+permanent lists, proto id together '
+    'A 5xx error list that contains a protocol error is not transient whatever else it contains (generated in both orders). '
+    'Response shapes on which the statement is silent are not generated: mixed temporary+permanent non-protocol lists, proto id together '
     'with the prevalidator marker, non-list JSON error bodies, 200 with a non-JSON body, content-type with a charset suffix.',
     'Exact back-off values are not asserted, only: non-decreasing, each <= 2.0 s, clock advances only through sleep.',
     'A transport exception is not a "transient server error": it must propagate without a resend.',
@@ -52,6 +53,8 @@ CLASSES = [
     'perm_json',
     'branch_json',
     'proto_temp',
+    'mix_temp_proto',
+    'mix_proto_temp',
     'text5xx',
     'badjson5xx',
     's401',
@@ -98,6 +101,12 @@ def gen_response(rng, cls, tok):
     if cls == 'proto_temp':
         pid = rng.choice(['proto.024-PsD5wVTJ.michelson_v1.script_rejected', 'proto.alpha.contract.counter_in_the_past', 'proto.024-PsD5wVTJ.gas_exhausted.operation'])
         return {'cls': cls, 'status': st5, 'ctype': 'application/json', 'body': json.dumps([{'kind': 'temporary', 'id': pid, 'tok': tok}])}
+    if cls in ('mix_temp_proto', 'mix_proto_temp'):
+        # a trace that contains a protocol error is a domain failure even if another entry is temporary infrastructure noise
+        pe = {'kind': rng.choice(['temporary', 'permanent', 'branch']), 'id': rng.choice(['proto.024-PsD5wVTJ.michelson_v1.runtime_error', 'proto.alpha.contract.balance_too_low']), 'tok': tok}
+        te = {'kind': 'temporary', 'id': rng.choice(['node.prevalidation.busy', 'failure']), 'tok': tok}
+        errs = [te, pe] if cls == 'mix_temp_proto' else [pe, te]
+        return {'cls': cls, 'status': st5, 'ctype': 'application/json', 'body': json.dumps(errs)}
     if cls == 'text5xx':
         return {'cls': cls, 'status': st5, 'ctype': 'text/plain', 'body': f'Internal server error {tok}'}
     if cls == 'badjson5xx':
